@@ -387,6 +387,18 @@ class SqlImpl(TableImpl):
                     else:
                         needed_cols[node._uuid] = cnt + 1
 
+            union_cols = []
+            if isinstance(nd, verbs.Union):
+                # every visible column of both inputs takes part in the union (UNION removes duplicates over all of
+                # them), also those that no later verb references: subqueries below must select them
+                from pydiverse.transform._internal.pipe.cache import Cache
+
+                union_cols = [
+                    col._uuid for side in (nd.child, nd.right) for col in Cache.from_ast(side).selected_cols()
+                ]
+                for uid in union_cols:
+                    needed_cols[uid] = needed_cols.get(uid, 0) + 1
+
             table, query, sqa_expr = cls.compile_ast(nd.child, needed_cols)
 
         if isinstance(nd, verbs.Mutate | verbs.Summarize):
@@ -607,13 +619,12 @@ class SqlImpl(TableImpl):
 
         if isinstance(nd, verbs.Verb):
             # decrease counters (`needed_cols` is not copied)
-            for node in nd.iter_col_nodes():
-                if isinstance(node, Col):
-                    cnt = needed_cols.get(node._uuid)
-                    if cnt == 1:
-                        del needed_cols[node._uuid]
-                    else:
-                        needed_cols[node._uuid] = cnt - 1
+            for uid in [node._uuid for node in nd.iter_col_nodes() if isinstance(node, Col)] + union_cols:
+                cnt = needed_cols.get(uid)
+                if cnt == 1:
+                    del needed_cols[uid]
+                else:
+                    needed_cols[uid] = cnt - 1
 
         return table, query, sqa_expr
 
